@@ -30,6 +30,7 @@ import (
 	"time"
 
 	"github.com/gauss-project/aurorafs/pkg/boson"
+	"github.com/gauss-project/aurorafs/pkg/localstore"
 	"github.com/gauss-project/aurorafs/pkg/storage"
 
 	"verifharness/gosim"
@@ -261,6 +262,10 @@ func (w *wnWorld) exec0(phase int, o gosim.Op) {
 		}
 		if code == 200 {
 			f.cached, f.deleted = true, false
+		} else if f.deleted {
+			// a failed re-download of a deleted file leaves some of its chunks
+			// cached again: neither "deleted" nor "known" describes it any more
+			f.uncertain = true
 		}
 		w.mu.Unlock()
 		if code == 200 {
@@ -412,14 +417,22 @@ func wnGen(prop string) func(rng *rand.Rand, tier string) *gosim.Plan {
 		p := &gosim.Plan{Params: map[string]int64{}}
 		nfiles := 2 + rng.Intn(3)
 		alpha := int64(3 + rng.Intn(4)) // chunk alphabet size: small => shared chunks
+		hot := prop == "C16" && rng.Intn(3) > 0 // C16: a family of files around one hot chunk
+		if hot {
+			nfiles = 3 + rng.Intn(3)
+		}
 		for f := 0; f < nfiles; f++ {
 			n := 1 + rng.Intn(3)
-			if rng.Intn(4) == 0 {
+			if rng.Intn(4) == 0 && !hot {
 				n = 0
 			}
 			a := []int64{int64(f), int64(rng.Intn(3)) * int64(1+rng.Intn(5000))}
 			for i := 0; i < n; i++ {
-				a = append(a, rng.Int63n(alpha))
+				if hot && rng.Intn(2) == 0 {
+					a = append(a, 0) // the hot chunk, possibly several times in one file
+				} else {
+					a = append(a, rng.Int63n(alpha))
+				}
 			}
 			if n == 0 && a[1] == 0 {
 				a[1] = 1 + rng.Int63n(3000)
@@ -438,12 +451,44 @@ func wnGen(prop string) func(rng *rand.Rand, tier string) *gosim.Plan {
 			ncli = 1 + rng.Intn(3)
 		}
 		nphase := 2 + rng.Intn(3)
+		p.Params["gc_pause_ms"] = gosim.Pick(rng, 0, 0, 1, 20)
 		for ph := 0; ph < nphase; ph++ {
+			if (prop == "C12" || prop == "C13" || prop == "C16") && ph > 0 && rng.Intn(3) == 0 {
+				// race phase: one client collects while another works on files the
+				// collector may be evicting (reads of their chunks, pins, unpins, re-downloads)
+				p.Ops = append(p.Ops, gosim.Op{K: "gc", A: []int64{0}})
+				for i, n := 0, 1+rng.Intn(3); i < n; i++ {
+					f := int64(rng.Intn(nfiles))
+					switch rng.Intn(5) {
+					case 0:
+						p.Ops = append(p.Ops, gosim.Op{K: "get", A: []int64{1, f, int64(rng.Intn(8))}})
+					case 1:
+						p.Ops = append(p.Ops, gosim.Op{K: "nsget", A: []int64{1, f, int64(rng.Intn(8)), 1}})
+					case 2:
+						p.Ops = append(p.Ops, gosim.Op{K: "pin", A: []int64{1, f}})
+					case 3:
+						p.Ops = append(p.Ops, gosim.Op{K: "unpin", A: []int64{1, f}})
+					default:
+						p.Ops = append(p.Ops, gosim.Op{K: "cache", A: []int64{1, f}})
+					}
+				}
+				p.Ops = append(p.Ops, gosim.Op{K: "barrier"})
+				continue
+			}
 			nops := 1 + rng.Intn(4)
 			for i := 0; i < nops; i++ {
 				cl := int64(rng.Intn(ncli))
 				f := int64(rng.Intn(nfiles))
 				x := rng.Intn(100)
+				if hot {
+					// more uploads and deletes: deletions of files that share chunks
+					switch y := rng.Intn(100); {
+					case y < 40:
+						x = 0 // upload
+					case y < 75:
+						x = 85 // delete
+					}
+				}
 				switch {
 				case x < 22:
 					p.Ops = append(p.Ops, gosim.Op{K: "upload", A: []int64{cl, f, int64(rng.Intn(3) / 2)}})
@@ -507,6 +552,17 @@ func wnExec(prop string) func(r *gosim.Run) {
 			w.files[f.id] = f
 		}
 		w.c = nkNewCluster(r)
+		// scheduling point between the collector's candidate selection and the
+		// eviction (the package's own test hook): other clients get to touch the
+		// file that is about to be evicted
+		pause := time.Duration(r.Plan.P("gc_pause_ms", 0)) * time.Millisecond
+		localstore.VerifSetHooks(nil, func() {
+			r.Count("probe_gc_candidates_selected")
+			gosim.Yield()
+			if pause > 0 {
+				time.Sleep(pause)
+			}
+		}, nil)
 		var err error
 		if w.n0, err = w.c.AddNode(nkOpts{Capacity: w.cap, Persistent: wnHasOp(r.Plan.Ops, "restart")}); err != nil {
 			r.Violate("setup", "%v", err)
